@@ -218,6 +218,14 @@ func (matrix *DenseIntMatrix) T() Matrix {
     colMax : matrix.rowMax }
 }
 func (matrix *DenseIntMatrix) Tip() {
+  if matrix.transposed {
+    // the storage already holds the transposed matrix in row-major order
+    matrix.transposed = false
+    matrix.rows, matrix.cols = matrix.cols, matrix.rows
+    matrix.rowOffset, matrix.colOffset = matrix.colOffset, matrix.rowOffset
+    matrix.rowMax, matrix.colMax = matrix.colMax, matrix.rowMax
+    return
+  }
   mn := len(matrix.values)
   visited := make([]bool, mn)
   k := 0
